@@ -74,7 +74,7 @@ def prop(case, rec):
     if not r.ok:
         if r.error is not None and not isinstance(r.error, ZeroDivisionError):
             raise Violation('crash:' + type(r.error).__name__, f'run_trainer raised {r.error!r}', case)
-        rec.skip('trainer_did_not_complete')
+        trainer.skip_or_alarm(rec, r, case, case['entries'], 100)
         return
     if case.get('drop_structs'):
         # base structures removed from Grammar/grammar.txt without renormalising - what edit_rules.py leaves behind; the
@@ -262,7 +262,7 @@ def prop_cli(case, rec):
     out = os.path.join(root, 'Rules', rule)
     r = guard(case, trainer.train, path, out, encoding=enc, coverage=case['coverage'], ngram=case['ngram'], alphabet_size=100)
     if not r.ok:
-        rec.skip('trainer_did_not_complete')
+        trainer.skip_or_alarm(rec, r, case, case['entries'], 100)
         return
     sc = build_scorer(out, case)
     cands = [c for c in dict.fromkeys(list(dict.fromkeys(pws)) + [x for s_ in list(dict.fromkeys(pws))[:6] for x in perturb(s_)] + case.get('extra', []) +
